@@ -58,6 +58,47 @@ def filter_show(e):
 
 
 # ---------------------------------------------------------------------------------------
+class _Ids:
+    def __init__(self):
+        self.sid = 0
+        self.item = 1
+
+
+def _gen_items(rng, ids, n, simple=False):
+    items = []
+    kinds = ["lit", "int", "lazy", "obj", "chr"] if simple else \
+        ["lit", "str", "int", "dbl", "chr", "lazy", "lazy", "lazyp", "obj", "fn"]
+    for _ in range(n):
+        kind = rng.choice(kinds)
+        if kind == "lit":
+            v = rng.choice(["msg", "a b", "", "{}", "x=1;", "%s"])
+        elif kind == "str":
+            v = rng.choice(["string", "", "two words", "\\t"])
+        elif kind == "int":
+            v = rng.choice([0, 7, -12, 123456, 255])
+        elif kind == "dbl":
+            v = rng.choice([2.5, -0.125, 1e6, 3.0])
+        elif kind == "chr":
+            v = rng.choice(["x", ":", " "])
+        else:
+            v = ids.item
+        items.append({"kind": kind, "v": v, "id": ids.item})
+        ids.item += 1
+    return items
+
+
+def _stmt(rng, ids, sev, form, nitems, simple=False, tagged=None):
+    items = _gen_items(rng, ids, nitems, simple)
+    cuts = sorted(rng.sample(range(1, max(2, nitems)), min(max(0, nitems - 1), rng.randint(0, 2)))) \
+        if nitems > 1 else []
+    if tagged is None:
+        tagged = rng.random() < 0.4
+    st = {"id": ids.sid, "sev": sev, "form": form, "tag": ("tag%d" % ids.sid) if tagged else None,
+          "items": items, "cuts": cuts, "nested": []}
+    ids.sid += 1
+    return st
+
+
 def gen_program(seed, nloggers=3, nstmts=14):
     rng = random.Random("loggen-%d" % seed)
     leaf = 1
@@ -66,48 +107,68 @@ def gen_program(seed, nloggers=3, nstmts=14):
         nl = [1, 2, 3, 2, 3][k % 5] if k else 3
         leaves = list(range(leaf, leaf + nl))
         leaf += nl
-        nsinks = rng.choice([1, 2, 2, 3])
+        nsinks = [2, 3, 1][k % 3]   # every program has sequences of 1, 2 and 3 members
         loggers.append({"k": k, "leaves": leaves, "filter": gen_filter(rng, leaves),
                         "sinks": ["S%d_%d" % (k, j) for j in range(nsinks)], "stmts": []})
-    # logger 0 always has a plain threshold filter plus the most common shape, so that simple
-    # mistakes cannot hide behind a complicated expression
+    # logger 1 always has a plain threshold filter, so that simple mistakes cannot hide behind a
+    # complicated expression
     if nloggers > 1:
         loggers[1]["filter"] = ("leaf", loggers[1]["leaves"][0])
         loggers[1]["leaves"] = loggers[1]["leaves"][:1]
-    sid = 0
-    item_id = 1
+    ids = _Ids()
     for lg in loggers:
         for j in range(nstmts):
             sev = j % 6 if j < 6 else rng.randrange(6)
             form = "expr" if (j % 2 == 0) else "named"
-            tagged = rng.random() < 0.4
             nitems = rng.choice([0, 1, 2, 3, 4, 6])
             if j < 2:
                 nitems = max(nitems, 3)
-            items = []
-            for _ in range(nitems):
-                kind = rng.choice(["lit", "str", "int", "dbl", "chr", "lazy", "lazy", "lazyp", "obj", "fn"])
-                if kind == "lit":
-                    v = rng.choice(["msg", "a b", "", "{}", "x=1;", "%s"])
-                elif kind == "str":
-                    v = rng.choice(["string", "", "two words", "\\t"])
-                elif kind == "int":
-                    v = rng.choice([0, 7, -12, 123456])
-                elif kind == "dbl":
-                    v = rng.choice([2.5, -0.125, 1e6, 3.0])
-                elif kind == "chr":
-                    v = rng.choice(["x", ":", " "])
-                else:
-                    v = item_id
-                items.append({"kind": kind, "v": v, "id": item_id})
-                item_id += 1
-            # split of a named statement's items over several C++ statements
-            cuts = sorted(rng.sample(range(1, max(2, nitems)), min(max(0, nitems - 1), rng.randint(0, 2)))) \
-                if nitems > 1 else []
-            lg["stmts"].append({"id": sid, "sev": sev, "form": form, "tag": ("tag%d" % sid) if tagged else None,
-                                "items": items, "cuts": cuts})
-            sid += 1
+            st = _stmt(rng, ids, sev, form, nitems)
+            lg["stmts"].append(st)
+        # statements whose lifetimes OVERLAP on one thread (each needs its own record and buffer):
+        # (a) a named stream with another complete statement between its insertions
+        st = _stmt(rng, ids, rng.randrange(6), "named", 4)
+        st["cuts"] = [1, 3]
+        st["nested"].append({"how": "between", "after_part": 0,
+                             "stmt": _stmt(rng, ids, rng.randrange(6), "expr", 2, simple=True)})
+        st["nested"].append({"how": "between", "after_part": 1,
+                             "stmt": _stmt(rng, ids, rng.randrange(2, 6), "named", 3, simple=True)})
+        lg["stmts"].append(st)
+        # (b) two named streams alive at the same time, insertions interleaved
+        st = _stmt(rng, ids, rng.randrange(6), "named", 3)
+        st["cuts"] = [1, 2]
+        inner = _stmt(rng, ids, rng.randrange(6), "named", 2, simple=True)
+        inner["cuts"] = [1]
+        st["nested"].append({"how": "alive", "around_part": 1, "stmt": inner})
+        lg["stmts"].append(st)
+        # (c) a lazily evaluated callable that itself logs
+        for form in ("expr", "named"):
+            st = _stmt(rng, ids, rng.randrange(6), form, 2, simple=True)
+            inner = _stmt(rng, ids, rng.randrange(6), "expr", 2, simple=True)
+            it = {"kind": "lazylog", "v": ids.item, "id": ids.item, "stmt": inner}
+            ids.item += 1
+            st["items"].insert(1, it)
+            st["cuts"] = [1] if form == "named" else []
+            st["nested"].append({"how": "lazylog", "stmt": inner})
+            lg["stmts"].append(st)
+        # (d) a stream manipulator must not leak into later statements
+        st = _stmt(rng, ids, 5, "expr", 1, simple=True)
+        st["items"].append({"kind": "hexint", "v": 255, "id": ids.item})
+        ids.item += 1
+        lg["stmts"].append(st)
+        st = _stmt(rng, ids, 5, "named", 0)
+        st["items"] = [{"kind": "int", "v": 255, "id": ids.item}, {"kind": "dbl", "v": 2.5, "id": ids.item + 1}]
+        ids.item += 2
+        lg["stmts"].append(st)
     return {"seed": seed, "loggers": loggers}
+
+
+def all_statements(lg):
+    """every statement of a logger incl. nested ones: (statement, parent or None, how)"""
+    for st in lg["stmts"]:
+        yield st, None, None
+        for n in st["nested"]:
+            yield n["stmt"], st, n["how"]
 
 
 def item_text(it):
@@ -124,6 +185,10 @@ def item_text(it):
         return "L%d" % it["id"]
     if k == "lazyp":
         return "P%d" % it["id"]
+    if k == "lazylog":
+        return "G%d" % it["id"]
+    if k == "hexint":
+        return "%x" % v
     return "O%d" % it["id"]
 
 
@@ -145,7 +210,65 @@ def item_cpp(it):
         return '[]() -> const char* { ev("LAZY %d"); return "P%d"; }' % (it["id"], it["id"])
     if k == "fn":
         return 'std::function<std::string()>([] { ev("LAZY %d"); return std::string("L%d"); })' % (it["id"], it["id"])
+    if k == "lazylog":
+        return '[] { ev("LAZY %d"); %s return std::string("G%d"); }' % (it["id"], it["_code"], it["id"])
+    if k == "hexint":
+        return "std::hex << %d" % v
     return "Counting{%d}" % it["id"]
+
+
+def _parts(st, items_cpp):
+    parts, prev = [], 0
+    for c in st["cuts"] + [len(items_cpp)]:
+        if c > prev:
+            parts.append(items_cpp[prev:c])
+        prev = c
+    return parts
+
+
+def stmt_code(k, st, ind, var):
+    """C++ lines of one statement incl. its markers and nested statements"""
+    L = []
+    sev = SEVS[st["sev"]]
+    tag = '"%s"' % st["tag"] if st["tag"] else ""
+    for it in st["items"]:
+        if it["kind"] == "lazylog":
+            it["_code"] = " ".join(x.strip() for x in stmt_code(k, it["stmt"], "", "q"))
+    items = [item_cpp(it) for it in st["items"]]
+    L.append(ind + 'ev("S %d");' % st["id"])
+    if st["form"] == "expr":
+        L.append(ind + "L%d::%s(%s)%s;" % (k, sev, tag, "".join(" << " + i for i in items)))
+    else:
+        L.append(ind + "{")
+        L.append(ind + "    auto %s = L%d::%s(%s);" % (var, k, sev, tag))
+        parts = _parts(st, items)
+        between = {n["after_part"]: n["stmt"] for n in st["nested"] if n["how"] == "between"}
+        alive = {n["around_part"]: n["stmt"] for n in st["nested"] if n["how"] == "alive"}
+        for pi, p in enumerate(parts):
+            if pi in alive:
+                inner = alive[pi]
+                iit = [item_cpp(it) for it in inner["items"]]
+                ip = _parts(inner, iit)
+                L.append(ind + '    ev("S %d");' % inner["id"])
+                L.append(ind + "    {")
+                L.append(ind + "        auto %s2 = L%d::%s(%s);" % (var, k, SEVS[inner["sev"]],
+                                                                  '"%s"' % inner["tag"] if inner["tag"] else ""))
+                if ip:
+                    L.append(ind + "        %s2%s;" % (var, "".join(" << " + i for i in ip[0])))
+                L.append(ind + "        %s%s;" % (var, "".join(" << " + i for i in p)))
+                for rest in ip[1:]:
+                    L.append(ind + "        %s2%s;" % (var, "".join(" << " + i for i in rest)))
+                L.append(ind + "        (void)%s2;" % var)
+                L.append(ind + "    }")
+                L.append(ind + '    ev("E %d");' % inner["id"])
+            else:
+                L.append(ind + "    %s%s;" % (var, "".join(" << " + i for i in p)))
+            if pi in between:
+                L.extend(stmt_code(k, between[pi], ind + "    ", var + "b"))
+        L.append(ind + "    (void)%s;" % var)
+        L.append(ind + "}")
+    L.append(ind + 'ev("E %d");' % st["id"])
+    return L
 
 
 def source(prog):
@@ -184,25 +307,8 @@ def source(prog):
         k = lg["k"]
         A("static void run_%d() {" % k)
         for st in lg["stmts"]:
-            sev = SEVS[st["sev"]]
-            tag = '"%s"' % st["tag"] if st["tag"] else ""
-            A('    ev("S %d");' % st["id"])
-            items = [item_cpp(it) for it in st["items"]]
-            if st["form"] == "expr":
-                A("    L%d::%s(%s)%s;" % (k, sev, tag, "".join(" << " + i for i in items)))
-            else:
-                A("    {")
-                A("        auto s = L%d::%s(%s);" % (k, sev, tag))
-                parts, prev = [], 0
-                for c in st["cuts"] + [len(items)]:
-                    if c > prev:
-                        parts.append(items[prev:c])
-                    prev = c
-                for p in parts:
-                    A("        s%s;" % "".join(" << " + i for i in p))
-                A("        (void)s;")
-                A("    }")
-            A('    ev("E %d");' % st["id"])
+            for line in stmt_code(k, st, "    ", "s"):
+                A(line)
         A("}")
     A("template <typename T> static int is_null() { return std::is_same<T, nitro::log::detail::null_stream>::value ? 1 : 0; }")
     A("int main() {")
@@ -230,15 +336,22 @@ def source(prog):
     return "\n".join(L) + "\n"
 
 
-def expected_events(lg, st, minsev, thr):
-    """-> (lazy_and_ins_events, fmt_and_sink_events) for one statement under one configuration"""
-    sev = st["sev"]
-    if sev < minsev or not filter_eval(lg["filter"], sev, thr):
+def enabled(lg, st, minsev, thr):
+    return st["sev"] >= minsev and filter_eval(lg["filter"], st["sev"], thr)
+
+
+def expected_events(lg, st, minsev, thr, parent=None, how=None):
+    """-> (lazy_and_ins_events, fmt_and_sink_events) for one statement under one configuration.
+    A statement nested in a lazily evaluated callable is executed only if its parent is emitted."""
+    if how == "lazylog" and not enabled(lg, parent, minsev, thr):
         return [], []
+    if not enabled(lg, st, minsev, thr):
+        return [], []
+    sev = st["sev"]
     lazy = []
     msg = ""
     for it in st["items"]:
-        if it["kind"] in ("lazy", "lazyp", "fn"):
+        if it["kind"] in ("lazy", "lazyp", "fn", "lazylog"):
             lazy.append("LAZY %d" % it["id"])
         elif it["kind"] == "obj":
             lazy.append("INS %d" % it["id"])
@@ -252,13 +365,27 @@ def expected_events(lg, st, minsev, thr):
     return lazy, out
 
 
-def parse_log(text):
-    """-> (types {(k, sev): is_null}, {(k, thr tuple): {stmt id: [event lines]}}, done)"""
+def item_owner(prog):
+    """item id -> statement id (LAZY / INS events are attributed through the item id, because the
+    insertions of two overlapping statements interleave)"""
+    m = {}
+    for lg in prog["loggers"]:
+        for st, _, _ in all_statements(lg):
+            for it in st["items"]:
+                m[it["id"]] = st["id"]
+    return m
+
+
+def parse_log(text, owner=None):
+    """-> (types {(k, sev): is_null}, {(k, thr tuple): {stmt id: [event lines]}}, done).
+    FMT / SINK events belong to the innermost open statement, LAZY / INS events to the statement
+    that owns the item (owner: item id -> statement id)."""
     types = {}
     cfgs = {}
     cur_cfg = None
-    cur_stmt = None
+    stack = []
     done = False
+    owner = owner or {}
     for line in text.split("\n"):
         if not line:
             continue
@@ -268,16 +395,22 @@ def parse_log(text):
         elif f[0] == "CFG":
             cur_cfg = (int(f[1]), tuple(int(x) for x in f[2:]))
             cfgs[cur_cfg] = {}
+            stack = []
         elif f[0] == "S":
-            cur_stmt = int(f[1])
-            cfgs[cur_cfg][cur_stmt] = []
+            stack.append(int(f[1]))
+            cfgs[cur_cfg].setdefault(int(f[1]), [])
         elif f[0] == "E":
-            cur_stmt = None
+            if stack and stack[-1] == int(f[1]):
+                stack.pop()
+            else:
+                cfgs[cur_cfg].setdefault(-1, []).append("unbalanced " + line)
         elif f[0] == "DONE":
             done = True
         elif cur_cfg is not None:
-            if cur_stmt is None:
+            if f[0] in ("LAZY", "INS") and int(f[1]) in owner:
+                cfgs[cur_cfg].setdefault(owner[int(f[1])], []).append(line)
+            elif not stack:
                 cfgs[cur_cfg].setdefault(-1, []).append(line)
             else:
-                cfgs[cur_cfg][cur_stmt].append(line)
+                cfgs[cur_cfg][stack[-1]].append(line)
     return types, cfgs, done
